@@ -185,7 +185,8 @@ PROPS["C08"] = {
     "level": "exploration",
     "quick_runs": 1200, "quick_budget_s": 150, "thorough_budget_s": 600,
     "rule": "one run = one world (store, e-mail domain rules exact / leading dot / wildcard / * / mixed case / none, authenticated-e-mails file, allowed groups, htpasswd users "
-            "(+group)) + identities with odd addresses (mixed case, sub-domains, look-alike suffixes, several @) + a history: 2-5 logins (OIDC or htpasswd form), requests, then 1-3 "
+            "(+group)) + allowed groups incl. names that contain commas (set on the loaded options, as a configuration file would), in a fifth of the worlds a provider without ID token and groups "
+            "+ identities with odd addresses (mixed case, sub-domains, look-alike suffixes, several @, none at all), groups that are pieces of a comma-bearing name + a history: 2-5 logins (OIDC or htpasswd form), requests, then 1-3 "
             "RULE CHANGES - the e-mails file rewritten (new set, one entry removed, emptied, comments only; optionally a malformed version delivered first, the reload event delayed "
             "or duplicated) with the reload delivered by the SimWatcher to the real reload closure, or a replica restart with other domain / group options while jars and Redis "
             "survive - each followed by requests of every session (upstream path or /oauth2/auth with allowed_groups / allowed_emails / allowed_email_domains constraints as comma "
@@ -213,7 +214,7 @@ PROPS["C15"] = {
     "rule": "one run = one world (0-15 skip-auth rules drawn from anchored / unanchored / method-qualified / negated / lower-case-method / legacy patterns, 0-22 trusted networks in a seeded configuration order "
             "incl. nested ones sharing a base address, overlapping, single hosts, IPv6, IPv4-mapped prefixes, preflight, reverse-proxy mode) + 150-299 unauthenticated requests over a path alphabet of 25 segments "
             "(equal to, prefix of, suffix of, containing rule fragments) x 11 methods (incl. lower / mixed case, OPTIONS) x 15 queries that embed rule-like fragments, 30% of them repeated "
-            "with another query (twin), in reverse-proxy worlds with X-Forwarded-Uri as the effective URI (half of them with a rule-like fragment before or after the query) + peer addresses = first / last / neighbours of every configured network, a "
+            "with another query (twin; half of the twins also carry a credential that authenticates nobody authorised: a verifying bearer token of an unauthorised user, a garbage cookie / Basic / Bearer value, a spoofed identity header), in reverse-proxy worlds with X-Forwarded-Uri as the effective URI (half of them with a rule-like fragment before or after the query) + peer addresses = first / last / neighbours of every configured network, a "
             "strided /22 + /24 + /120 universe and 22 hand-picked boundary addresses, each written as IPv4, ::ffff:a.b.c.d and ::ffff:hhhh:hhhh (via the configured real-client-IP "
             "header in reverse-proxy mode); oracle: reached upstream / 202 <=> independent rule evaluation on (method, path) or preflight or net.IPNet.Contains(peer); "
             "non-trivial = at least one request was exempted; distinct = distinct rule/network set + event hash",
@@ -224,7 +225,7 @@ PROPS["C15"] = {
 PROPS["C16"] = {
     "level": "exploration",
     "quick_runs": 800, "quick_budget_s": 150, "thorough_budget_s": 600,
-    "rule": "TWIN RUNS: one run = one tape executed twice in two fresh bubbles with the same seeded crypto/rand stream: world (reverse-proxy on/off, configured real-client-IP header, "
+    "rule": "TWIN RUNS: one run = one tape executed twice in two fresh bubbles with the same seeded crypto/rand stream: world (reverse-proxy on/off, a real-client-IP header option drawn independently of the mode, "
             "trusted networks, skip-auth routes, cookie domains, whitelist domains, redirect-url options, store, plain HTTP or TLS front (req.TLS set), force-https) + 6-11 unauthenticated requests over 13 endpoint targets and 6 peer "
             "addresses + a real login + 3-6 authenticated requests + optional refresh + sign-out; in the second execution 60% of the requests additionally carry 1-4 forwarding headers "
             "(X-Forwarded-Host/Proto/Uri/For/Port/Prefix, X-Real-IP, X-ProxyUser-IP, X-Envoy-External-Address, CF-Connecting-IP, Forwarded, X-Original-URL; hosts on/off the whitelist and "
@@ -243,7 +244,7 @@ PROPS["C07"] = {
             "set-basic-auth, set-xauthrequest, set-authorization-header, prefer-email-to-user, skip-auth-strip-headers, basic-auth-password) judged against the documented mapping, or "
             "structured request / response header lists (1-4 names incl. lower-case and Authorization, 1-2 values each from 7 claims as plain / prefixed / basic-auth, preserve on/off) + "
             "six session sources (cookie sessions of a plain, a Unicode / multi-group and a group-less user, bearer token, htpasswd basic, none on a bypassed route) + 40-79 requests to "
-            "an upstream path or /oauth2/auth carrying 0-4 spoofed headers under configured names and neighbours in four letter cases with comma-joined, padded and repeated values; "
+            "an upstream path or /oauth2/auth carrying 0-4 spoofed headers under configured names and neighbours in four letter cases with comma-joined, padded and repeated values (incl. a repetition whose first occurrence is empty); "
             "oracle: independent derivation expected(name) from (configuration, session), compared with what the FakeUpstream received over the real transport and with the auth-only "
             "response; unconfigured names must arrive as sent; non-trivial = at least one request reached the upstream; distinct = distinct configuration + event hash",
     "level_text": "seeded search over session source x spoofed headers x option combinations, observed at the upstream",
@@ -257,7 +258,7 @@ PROPS["C17"] = {
             "groups incl. a longer overlapping pattern, a group swap and a target with a query of its own, a static upstream; pass-host-header per rule; raw-path proxying on/off; four FakeUpstream hosts) + a real login "
             "+ 40-79 authenticated requests: 24 prefixes (10 of them with an encoded slash or letter right at a prefix boundary) x 0-3 segments from an alphabet with %2F, %2e, %20, +, ;, %-encoded and raw UTF-8, %3F, %25 x 14 queries (two re-using the rule's parameter names) x 9 methods x 0-5 "
             "headers (repeated, lower-case, unusual names, empty values, hop-by-hop) x bodies 0 B - 1 MiB fixed or chunked with seeded chunk sizes; the upstream answers with a seeded "
-            "status (14 codes), headers (Set-Cookie x2, Location, repeated fields, WWW-Authenticate) and body up to 70 kB, or is faulted (refuse / reset / hang, 8%); the real "
+            "status (14 codes), headers (Set-Cookie x2, Location, repeated fields, WWW-Authenticate) and body up to 70 kB, or is faulted (refuse / reset / hang, 8%), in 12% preceded by 103 Early Hints; three paths that percent-decode to the ping / ready paths of the pre-auth chain; the real "
             "http.Transport writes to a net.Pipe and a real http.Server parses it; oracle: exactly the upstream named by an independent longest-prefix / longest-pattern model, "
             "request-target byte-equal (rewrite rules: path per rule, query compared as parsed values), method, body hash, Host, every end-to-end header modulo list combination, no "
             "undocumented additions; response status, headers and body hash relayed; faults => 502; non-trivial = at least one request was proxied; distinct = rule set + event hash",
@@ -269,10 +270,10 @@ PROPS["C17"] = {
 PROPS["C06"] = {
     "level": "exploration",
     "quick_runs": 160, "quick_budget_s": 200, "thorough_budget_s": 600,
-    "rule": "one run = one world (9 whitelist classes: none, exact, leading dot, *., with port, :*, IPv6, several, wildcard+any-port; reverse-proxy, encode-state, provider button, "
+    "rule": "one run = one world (14 whitelist classes: none, exact, leading dot, *., with port, :*, IPv6, several, wildcard+any-port, and five multi-entry lists mixing host-only and host:port entries in both orders; reverse-proxy, encode-state, provider button, "
             "htpasswd) + one chunk of 1500 strings of the COMPLETE enumeration of token sequences up to length 3 (quick; 4 in thorough) over a 46-token adversarial grammar (/, \\, ., .., "
             "%2e, %2f, %5c, %09, %00, TAB, LF, CR, SP, VT, FF, NUL, U+00A0, U+2028, @, :, #, ?, ;, scheme tokens in several cases incl. javascript: data: ws: ftp:, whitelisted host, "
-            "sub-domain, suffix and prefix look-alikes, IP literals, ports) + 300 random sequences of 4-12 tokens + 32 classics; every string goes through sign_out?rd and "
+            "sub-domain, suffix and prefix look-alikes, IP literals, ports) + 300 random sequences of 4-12 tokens + 32 classics + 108 host x port products + 110 compositions (innocent same-site prefix, then fragment / query / parameter / dot segments, then a classic); every string goes through sign_out?rd and "
             "X-Auth-Request-Redirect; a seeded sample of 120 (600 thorough) through the htpasswd form login, the sign-in and error pages (hidden rd, form action), start?rd -> IdP -> "
             "callback, a protected path / X-Forwarded-Proto/Host/Uri in reverse-proxy mode -> callback, and the redirect part of the state tampered after start (nonce intact, with and "
             "without encode-state); oracle: every Location / action / hidden rd resolved by an independent WHATWG-style resolver must be the request host over http(s) or pass an "
@@ -287,8 +288,8 @@ PROPS["C19"] = {
     "level": "exploration",
     "quick_runs": 600, "quick_budget_s": 150, "thorough_budget_s": 600,
     "rule": "one run = one validated configuration (store, csrf-per-request, encode-state, provider button, refresh / expire 0 or finite, secret size, request AND response header lists "
-            "over every injectable claim incl. created_at / expires_on / an unknown claim as plain / prefixed / basic-auth values, 16 further options, reverse-proxy with each supported "
-            "real-client-IP header) + genuine material of every session source (cookie session, CSRF cookie of an open login, bearer token, htpasswd incl. an unparseable bcrypt entry) + "
+            "over every injectable claim incl. created_at / expires_on / an unknown claim as plain / prefixed / basic-auth values, 16 further options, in 30% of the runs one option value at the edge of validity (SameSite / PKCE method / header names in other letter cases, odd route / network / page / duration values), reverse-proxy with each supported "
+            "real-client-IP header; configurations refused by validation are skipped) + genuine material of every session source (cookie session, CSRF cookie of an open login, bearer token, htpasswd incl. an unparseable bcrypt entry) + "
             "150-299 requests built by grammar mutation at the raw text level: 15 methods x 32 request-targets (asterisk, absolute form, bad escapes, NUL, 6000-byte path) x 20 queries "
             "(state / code / rd / allowed_* shapes, semicolons, 9 kB values) x 10 Host values x 9 peer addresses x 16 cookie shapes (empty, separators only, 9 kB, truncated genuine, "
             "out-of-range timestamps, VALIDLY SIGNED cookies / tickets / split parts with 12 malformed payload classes) x CSRF cookie shapes x 22 Authorization shapes (malformed Basic / "
